@@ -5,9 +5,9 @@ sys.path.insert(0, os.path.join(os.path.dirname(os.path.abspath(__file__)), ".."
 from vlib import *
 
 
-def idl_cfg(maxdecls, tricky, emit_at, constraint=False, focus="all"):
-    return ("SPECIFICATION Spec\nCONSTANTS MaxDecls = %d Tricky = %s EmitAt = %d WithBreaks = FALSE Focus = \"%s\" Hard = \"none\"\nINVARIANTS AlwaysValid Emit\n%sCHECK_DEADLOCK FALSE\n"
-            % (maxdecls, tricky, emit_at, focus, "CONSTRAINT Bounded\n" if constraint else ""))
+def idl_cfg(maxdecls, tricky, emit_at, constraint=False, focus="all", hard="none"):
+    return ("SPECIFICATION Spec\nCONSTANTS MaxDecls = %d Tricky = %s EmitAt = %d WithBreaks = FALSE Focus = \"%s\" Hard = \"%s\"\nINVARIANTS AlwaysValid Emit\n%sCHECK_DEADLOCK FALSE\n"
+            % (maxdecls, tricky, emit_at, focus, hard, "CONSTRAINT Bounded\n" if constraint else ""))
 
 
 def progs_of(r):
@@ -54,6 +54,14 @@ def run(ctx):
         fp = progs_of(r)
         ctx.extra["focus_" + focus] = len(fp)
         progs += fp
+    # the hard families of C11 are hard for the generators, not for the parser: a few walks ending in each of them
+    for hard in ("keywords", "container-keys", "nested-typedef"):
+        r = ctx.tlc("IDL", "i.cfg", cfg_text=idl_cfg(2, "FALSE", 8, hard=hard), workers=1, simulate=2, depth=8, timeout=600, count=False)
+        if not r.ok:
+            raise MachineryError("IDL simulation (%s) failed: %s" % (hard, r.out[-1500:]))
+        hp = [q for q in progs_of(r) if json.loads(q)["broken"] == "hard:" + hard]
+        progs += hp[:40]
+        ctx.extra["hard_" + hard] = len(hp[:40])
     progs = list(dict.fromkeys(progs))
     inp = os.path.join(ctx.scratch, "idl_progs.ndjson")
     open(inp, "w").write("\n".join(progs) + "\n")
